@@ -72,14 +72,14 @@ def goQuote (bs : Bytes) (isPrint : Nat → Bool := isPrintDefault) : Bytes :=
   34 :: goQuoteBody isPrint bs ++ [34]
 
 /-- GraphQL-correct escaping of one byte: `\"`, `\\`, `\b \f \n \r \t`, other bytes < 0x20 and DEL
-    as `\u00XX` (upper-case hex, as the spec's examples), everything else verbatim. -/
+    as `\u00XX` (lower-case hex, as ast.quoteString writes), everything else verbatim. -/
 def gqlEscapeByte (b : Nat) : Bytes :=
   if b = 34 then [92, 34] else if b = 92 then [92, 92]
   else if b = 8 then [92, 98] else if b = 12 then [92, 102] else if b = 10 then [92, 110]
   else if b = 13 then [92, 114] else if b = 9 then [92, 116]
   else if b < 32 ∨ b = 127 then
-    [92, 117, 48, 48, (if b / 16 % 16 < 10 then 48 + b / 16 % 16 else 55 + b / 16 % 16),
-      (if b % 16 < 10 then 48 + b % 16 else 55 + b % 16)]
+    [92, 117, 48, 48, (if b / 16 % 16 < 10 then 48 + b / 16 % 16 else 87 + b / 16 % 16),
+      (if b % 16 < 10 then 48 + b % 16 else 87 + b % 16)]
   else [b]
 
 def gqlQuoteBody : Bytes → Bytes
